@@ -293,7 +293,7 @@ func TestC31(t *testing.T) {
 	suites12 := []uint16{tls.TLS_RSA_WITH_AES_128_CBC_SHA, tls.TLS_ECDHE_RSA_WITH_AES_128_GCM_SHA256, tls.TLS_ECDHE_ECDSA_WITH_CHACHA20_POLY1305_SHA256, tls.TLS_RSA_WITH_RC4_128_SHA, tls.OLD_TLS_ECDHE_RSA_WITH_CHACHA20_POLY1305_SHA256}
 	// every exported field of the public views must be covered by the comparison; the
 	// expected field lists are written down here so that a new field shows up.
-	wantFields := map[string]int{"PubClientHelloMsg": 28, "PubServerHelloMsg": 21, "CertificateRequestMsgTLS13": 6, "PubCipherSuite": 9, "PubCipherSuiteTLS13": 4, "KeySharePrivateKeys": 4, "TicketKey": 3}
+	wantFields := map[string]int{"PubClientHelloMsg": 28, "PubServerHelloMsg": 21, "CertificateRequestMsgTLS13": 6, "PubCipherSuite": 9, "PubCipherSuiteTLS13": 4, "KeySharePrivateKeys": 5, "TicketKey": 3}
 	gotFields := map[string]int{
 		"PubClientHelloMsg": len(exportedFieldNames(reflect.TypeOf(tls.PubClientHelloMsg{}))), "PubServerHelloMsg": len(exportedFieldNames(reflect.TypeOf(tls.PubServerHelloMsg{}))),
 		"CertificateRequestMsgTLS13": len(exportedFieldNames(reflect.TypeOf(tls.CertificateRequestMsgTLS13{}))), "PubCipherSuite": len(exportedFieldNames(reflect.TypeOf(tls.PubCipherSuite{}))),
